@@ -1,4 +1,5 @@
 import StepModel.P21.ReaderLemmas13
+import StepModel.P21.ReaderLemmas15
 import StepModel.Generated.P21RWGen
 /-! # C03 — the reader never reports a violating file as clean: property theorems
 
@@ -1415,6 +1416,20 @@ theorem C03_foreign_select_keyword_flawed {F} (env : Env F) (strict : Bool)
       simp [List.append_assoc]
     rw [hattrs, hsev, etext]
     simpa [List.map_append] using h
+
+/-- **duplicate id, record level** (re-export of `createInstance_dup` / `readInstance_dup`): a record whose id the manager
+    already holds creates nothing in pass 1 (`ReadData1` counts it not created - `C03_not_created_fails_file` then fails
+    the file) and, the first record with that id having been read, is skipped by pass 2 up to its `;` whatever it holds;
+    neither pass touches the record behind it.  (The file-level composition - a list with duplicates inside
+    `C03_skipped_record_confined_partial` - is not stated: its invariants are positional.) -/
+theorem C03_duplicate_id_record_skipped {F} (ops : FloatOps F) (lex : LexCfg) (cfg : RWCfg) (d : Dict) (strict : Bool)
+    (hskip : cfg.skipInstanceSkipsComments = true) (r : Rec F) (hlex : r.Lex) (hscan : ∀ q ∈ r.ps, ParamScan q) :
+    (∀ (m : Mgr F) (i0 : MInst F), m.find? r.id = some i0 → ∀ l rest,
+        ∃ l', createInstance cfg d m (G l (r.text rest) false) = .ok (none, G l' rest false)) ∧
+    (∀ (st : P2 F) (i0 : MInst F), st.mgr.find? r.id = some i0 → i0.state ≠ .new → ∀ l rest, st.s = G l (r.text rest) false →
+        ∃ l', readInstance ops lex cfg d strict st = .ok { s := G l' rest false }) :=
+  ⟨fun m i0 h l rest => createInstance_dup cfg hskip d m r hlex hscan i0 h l rest,
+   fun st i0 h hn l rest hs => readInstance_dup ops lex cfg d strict hskip st r hlex hscan l rest hs i0 h hn⟩
 
 /-- tie: the source keeps what `CheckRemainingInput` reports behind a `$` (C09's repair is in) -/
 theorem C03_source_dollar_keeps_error : Generated.rwLexCfg.dollarKeepsError = true := by decide
